@@ -73,6 +73,7 @@ func runC02(t *testing.T, c *choice.Stream, r *Result, opt RunOpt) {
 		cf.Database = []string{"", "db1"}[c.Draw("db", 2)]
 		cf.ClientName = []string{"", "sim/1.0"}[c.Draw("cname", 2)]
 		nq := c.Range("queries", 1, 3)
+		deadPing := []bool{c.Bool("deadping.0", 1, 8), c.Bool("deadping.1", 1, 8), c.Bool("deadping.2", 1, 8)}
 		var qs []*c02Query
 		script := cf.HandshakeSteps()
 		nop := func(*refproto.ClientPacket) []byte { return nil }
@@ -151,13 +152,64 @@ func runC02(t *testing.T, c *choice.Stream, r *Result, opt RunOpt) {
 			shapes = append(shapes, map[string]any{"kind": cq.sc.kind, "cols": colNames(cq.sc.cols), "settings": len(cq.q.Settings), "params": len(cq.q.Parameters), "ext": colNames(cq.ext), "id_len": len(cq.q.QueryID), "body_len": len(cq.q.Body), "span": cq.span.IsValid(), "refuse": cq.refuse})
 		}
 		r.Sample = map[string]any{"client_rev": cf.ClientRev, "server_rev": cf.ServerRev, "compression": cf.Comp.String(), "level": cf.Level, "conn_settings": len(cf.Settings), "queries": shapes}
+		// Another client of the same application: its Options.Settings is a prefix
+		// of ours in the same backing array, with spare capacity (ours was built by
+		// appending to the common ones). What it sends must not touch what we send.
+		opts := cf.Options()
+		var sibConn *simnet.Conn
+		var sibOpts ch.Options
+		var sibSettings []ch.Setting
+		if len(cf.Settings) > 0 && c.Bool("sibling", 1, 5) {
+			backing := make([]ch.Setting, len(cf.Settings), len(cf.Settings)+4)
+			copy(backing, cf.Settings) // cf.Settings itself stays private to the oracle
+			opts.Settings = backing
+			sibOpts = cf.Options()
+			sibOpts.Settings = backing[:c.Draw("sibling.prefix", len(cf.Settings))]
+			for len(sibSettings) == 0 {
+				sibSettings = drawSettings(c, "sibling.q")
+			}
+			sibSrv := simnet.NewServer(cf.ServerRev, cf.HandshakeSteps())
+			sibSrv.Auto = autoResponder(cf)
+			sibConn = e.W.NewConn(sibSrv)
+		}
 		return func() {
-			cl, err := ch.Connect(context.Background(), conn, cf.Options())
+			cl, err := ch.Connect(context.Background(), conn, opts)
 			if err != nil {
 				r.Violate("handshake", "handshake", "fault-free handshake failed: %v (server parse error: %v)", err, srv.Parser.Err)
 				return
 			}
+			if sibConn != nil {
+				sib, err := ch.Connect(context.Background(), sibConn, sibOpts)
+				if err != nil {
+					r.Harness("sibling handshake failed: %v", err)
+					return
+				}
+				var v proto.ColUInt8
+				if err := sib.Do(context.Background(), ch.Query{Body: "SELECT 7", Result: proto.Results{{Name: "probe", Data: &v}}, Settings: sibSettings}); err != nil {
+					r.Harness("sibling query failed: %v", err)
+					return
+				}
+				r.Fire("sibling_client_with_shared_settings_array")
+			}
 			for i, cq := range qs {
+				if deadPing[i%len(deadPing)] {
+					// a health probe under a context that is already over: it may write
+					// nothing, and must not leave anything behind for the query that follows
+					dctx, cancel := context.WithCancel(context.Background())
+					cancel()
+					mark := conn.OutLen()
+					if err := cl.Ping(dctx); err == nil {
+						r.Violate("dead-ping", "dead-ping-ok", "Ping under a cancelled context returned nil")
+					}
+					if n := conn.OutLen() - mark; n != 0 {
+						r.Violate("dead-ping", "dead-ping-wrote", "Ping under a cancelled context wrote %d bytes", n)
+					}
+					r.Fire("ping_with_dead_context")
+					if cl.IsClosed() {
+						r.Probe("closed_by_dead_ping")
+						break
+					}
+				}
 				before := conn.OutLen()
 				derr := cl.Do(cq.ctx, cq.q)
 				if cq.refuse {
